@@ -86,7 +86,8 @@ def cut(rel, start_re, end_re, include_end=True, nth=1, after_re=None):
 
 # ----------------------------------------------------------------------------------------------------------- units
 class Unit:
-    def __init__(self, name, wrapper=None, wrapper_text=None, libs=(), roots=(), cflags=(), types=(), opt=None, std=None, cuts=()):
+    def __init__(self, name, wrapper=None, wrapper_text=None, libs=(), roots=(), cflags=(), types=(), opt=None, std=None, cuts=(), shim=True):
+        self.shim = shim               # False: keep libstdc++'s extern templates (iostream stays external); the wrapper instantiates std::string itself
         self.cuts = list(cuts)         # mangled names of functions declared unreachable (asserted): body not encoded
         self.name = name
         self.wrapper = wrapper            # path relative to VERIF, or None when wrapper_text (callable or str) is given
@@ -120,7 +121,10 @@ class Unit:
         shutil.rmtree(self.dir, ignore_errors=True)
         os.makedirs(self.dir)
         wp = self.wrapper_path()
-        flags = [self.std] + [f for f in IRFLAGS if not (self.opt and f == '-O2')] + ([self.opt] if self.opt else []) + self.incs() + self.cflags
+        irflags = list(IRFLAGS)
+        if not self.shim:
+            irflags = irflags[:irflags.index('-include')]
+        flags = [self.std] + [f for f in irflags if not (self.opt and f == '-O2')] + ([self.opt] if self.opt else []) + self.incs() + self.cflags
         jobs = [(wp, os.path.join(self.dir, 'wrap.bc'))]
         for l in self.libs:
             jobs.append((os.path.join(REPO, l), os.path.join(self.dir, 'lib_' + re.sub(r'\W', '_', l) + '.bc')))
@@ -142,7 +146,7 @@ class Unit:
             raise BuildError('ll2c: ' + r.stderr[-3000:])
         m = re.search(r'emitted (\d+) functions, (\d+) globals; externals: (.*)', r.stderr)
         md = re.search(r'external-data: (.*)', r.stderr)
-        extdata = [x for x in (md.group(1).split() if md else []) if not re.match(r'_ZTV|_ZTI|_ZTS|_ZNSt|_ZSt|_ZNKSt|__dso_handle|_ZGVNSt', x)]   # libstdc++/ABI data is allowed; cppcheck data is not
+        extdata = [x for x in (md.group(1).split() if md else []) if not re.match(r'_ZTV|_ZTI|_ZTS|_ZTT|_ZTC|_ZNSt|_ZSt|_ZNKSt|__dso_handle|_ZGVNSt', x)]   # libstdc++/ABI data is allowed; cppcheck data is not
         if extdata and not getattr(self, 'allow_extdata', False):
             raise BuildError('unit %s: data defined outside the encoded sources would read as zero: %s (add the defining .cpp to libs)' % (self.name, ' '.join(extdata)))
         srcs = [wp] + [os.path.join(REPO, l) for l in self.libs]
